@@ -123,11 +123,17 @@ def gen_case(rng: random.Random, tier: str) -> dict:
                 rng.shuffle(waits)
             blk["nodes"].append({"kind": "fn", "name": "Lw", "params": [{"name": blk["state"][0]}], "outs": ["Lwout"], "wait_for": waits})
             blk["oneshot"] = True
+        for nd in blk["nodes"]:
+            if nd["kind"] == "fn" and nd.get("emit") and rng.random() < 0.25:
+                nd["emit_via_rename"] = True  # signal declared under a provisional name, renamed with with_outputs
         order = list(range(len(blk["nodes"])))
         rng.shuffle(order)
         return {"kind": "loop", "blk": blk, "order": order, "async": [gen.gen_async_cfg(rng) for _ in range(2)]}
     g = gen_dag17(rng)
     inp = gen.gen_inputs(rng, g, p_bind=0.0, p_omit=0.3)
+    for nd in g["nodes"]:
+        if nd["kind"] == "fn" and nd.get("emit") and rng.random() < 0.25:
+            nd["emit_via_rename"] = True
     cached = rng.random() < 0.3
     if cached:
         # producers of signals are served from a cache in a second run: a signal is produced on every run of its producer all the same
